@@ -120,7 +120,7 @@ PERM3 = list(itertools.permutations(range(3)))
       targets=("clematis/engine/stages/t1.py:_match_keywords", "clematis/engine/stages/t1.py:_t1_one_graph", "clematis/graph/store.py:InMemoryGraphStore.csr"),
       stubs=("t1.stable_key -> constant (T1 cache off)",),
       bounds="graph with 3 nodes (two of them sharing the label that seeds them, one tagged) and 3 edges with symbolic real weights in [-2,2] (ties allowed; quick: the back edge disabled (weight 0)); nodes and edges inserted in every permutation",
-      split={"pn": [0, 1, 2, 3, 4, 5]},
+      split={"pn": [0, 1, 2, 3, 4, 5], **({"pe": [0, 1, 2, 3, 4, 5]} if H.THOROUGH else {})},
       note="C01.c propagation does not depend on the insertion order of nodes and edges in the store (dict iteration order), including equal labels and equal weights")
 def order_t1(w0: float, w1: float, w2: float, pn: int, pe: int) -> bool:
     """
